@@ -139,6 +139,12 @@ def scenarios():
     add("raw-get-big-log-7byte", {b"big": (logval + b"\n", 0)}, ("raw_command", (b"get big", b"\n\r\nEND\r\n"), {}),
         ("ret", b"VALUE big 0 %d\r\n" % (len(logval) + 1) + logval))
     add("get-big-log", {b"big": (logval, 0)}, ("get", ("big",), {}), ("ret", logval))
+    # values of 64 KiB and more (a reader with a separate path for big values)
+    for n in (65535, 65536, 70001):
+        v_ = bytes((i * 11 + n) % 253 for i in range(n))
+        add("get-huge-%d" % n, {b"huge": (v_, 0)}, ("get", ("huge",), {}), ("ret", v_))
+    v_ = bytes((i * 13) % 253 for i in range(65536))
+    add("get_many-huge-and-small", {b"huge": (v_, 0), b"s": (b"small", 0)}, ("get_many", (["s", "huge", "nope"],), {}), ("ret", {"s": b"small", "huge": v_}))
     add("raw-config-ERROR-7byte", {}, ("raw_command", (b"config get cluster", b"\n\r\nEND\r\n"), {}),
         ("exc", "MemcacheUnknownCommandError"))
     add("raw-get-END-server_error", {b"h": (b"hello", 0)}, ("raw_command", (b"get h", b"END\r\n"), {}),
@@ -274,9 +280,18 @@ def cutsets(L, tier, rng, scenario_name):
         # RECV_SIZE-aligned
         al = sorted({p for k in range(1, L // 4096 + 2) for p in (4096 * k - 1, 4096 * k, 4096 * k + 1,
                                                                    L - 4096 * k - 1, L - 4096 * k, L - 4096 * k + 1) if 0 < p < L})
-        for r in range(1, min(len(al), 4) + 1):
-            for c in itertools.combinations(al, r):
-                yield c, ()
+        if len(al) <= 24:
+            for r in range(1, min(len(al), 4) + 1):
+                for c in itertools.combinations(al, r):
+                    yield c, ()
+        else:
+            # very long streams: every single aligned cut, every pair of neighbouring ones, and a sample of pairs / triples
+            for c in al:
+                yield (c,), ()
+            for a_, b_ in zip(al, al[1:]):
+                yield (a_, b_), ()
+            for _ in range(60 if tier == "quick" else 1500):
+                yield tuple(sorted(rng.sample(al, rng.choice((2, 3))))), ()
     # single bytes (bounded to keep big values affordable)
     if L <= 600 or tier == "thorough" or L in (4111, 8209):
         yield tuple(positions), ()
